@@ -359,6 +359,7 @@ def crash_runs(ctx, hist, parallel, work):
                 if arm:
                     if crashed:
                         ctx.count("C19.crash_points")
+                        ctx.observe("crash location (file:function:line)", crashed)
                         fn = crashed.split(":")[1] if ":" in crashed else crashed
                         ctx.count(f"C19.crash_in:{fn}")
                         ctx.case(("crash", tuple(hist), parallel, arm), nontrivial=True,
@@ -479,6 +480,7 @@ def bigreq_run(ctx, c, work):
         done = [e[1] for e in lab.log if e[0] in ("done", "notfound")]
         ctx.case(("bigreq", len(keys), len(missing), "reordered" if done != [k for k in keys] else "in-order"),
                  nontrivial=bool(missing), sample=c if len(ctx.samples) < 1 else None)
+        ctx.observe("large request: completion order", ",".join(done))
         if done != keys:
             ctx.count("C19.bigreq_completion_order_differs_from_request_order")
         ctx.count("C19.faults_delivered", len(missing))
